@@ -27,6 +27,7 @@ def run(ctx):
     text(ctx, "R3")
     text_model(ctx, "R4")
     tld_table(ctx, "R5")
+    tld_writers(ctx, "R6")
 
 
 def languages(ctx, rule):
@@ -511,3 +512,65 @@ def tld_table(ctx, rule):
     finally:
         repo.global_overrides = {}
     ctx.require_instances(rule, n, len(TLD_HOSTS) + len(TLD_LABELS) - 4, "(function, argument) cells")
+
+
+# ----------------------------------------------------------------------
+def tld_writers(ctx, rule):
+    ctx.rule(rule, "who fills the TLD table: every statement of the package that adds to / rebinds ural.tld.TLD_SET takes its elements from the IANA table tld_data.TLDS only (directly, or as the variable of a loop over it); the public-suffix lists hold labels that are not TLDs (onion, ...), so nothing derived from them may enter")
+    repo = ctx.repo
+    n = 0
+
+    def from_iana(mod, fn, expr, depth=0):
+        """expr denotes (an element of / a collection equal to) tld_data.TLDS"""
+        if depth > 4:
+            return False
+        if isinstance(expr, ast.Attribute) or isinstance(expr, ast.Name) and expr.id not in ("tld", "x", "t"):
+            dn = repo.dotted(mod, expr) if isinstance(expr, ast.Attribute) else None
+            if dn is not None and dn.endswith("tld_data.TLDS"):
+                return True
+            if isinstance(expr, ast.Name):
+                site = repo.def_site(mod, expr.id) if expr.id in mod.bindings else None
+                if site == ("ural.tld_data", "TLDS"):
+                    return True
+        if isinstance(expr, ast.Call) and isinstance(expr.func, ast.Name) and expr.func.id in ("set", "list", "tuple", "sorted", "iter", "frozenset") and len(expr.args) == 1:
+            return from_iana(mod, fn, expr.args[0], depth + 1)
+        if isinstance(expr, ast.Name) and fn is not None:
+            # a loop / comprehension variable over the table
+            for loop in ast.walk(fn):
+                if isinstance(loop, (ast.For, ast.comprehension)) and isinstance(loop.target, ast.Name) and loop.target.id == expr.id:
+                    return from_iana(mod, fn, loop.iter, depth + 1)
+        if isinstance(expr, (ast.GeneratorExp, ast.ListComp, ast.SetComp)) and len(expr.generators) == 1 and isinstance(expr.elt, ast.Name) and isinstance(expr.generators[0].target, ast.Name) \
+                and expr.elt.id == expr.generators[0].target.id and not expr.generators[0].ifs:
+            return from_iana(mod, fn, expr.generators[0].iter, depth + 1)
+        return False
+
+    for mname in repo.all_module_names():
+        if mname.endswith("tld_data"):
+            continue
+        mod = repo.mod(mname)
+        if "TLD_SET" not in mod.bindings:
+            continue
+        if repo.def_site(mod, "TLD_SET") != ("ural.tld", "TLD_SET"):
+            continue
+        scopes = [(None, [st for st in mod.tree.body if not isinstance(st, (ast.FunctionDef, ast.ClassDef))])] + [(f, [f]) for f in ast.walk(mod.tree) if isinstance(f, ast.FunctionDef)]
+        for fn, body in scopes:
+            for st in body:
+                for x in ast.walk(st):
+                    src = None
+                    what = None
+                    if isinstance(x, ast.Call) and isinstance(x.func, ast.Attribute) and isinstance(x.func.value, ast.Name) and x.func.value.id == "TLD_SET" and x.func.attr in ("add", "update", "__ior__") and x.args:
+                        src, what = x.args[0], "TLD_SET.%s(%s)" % (x.func.attr, unparse(x.args[0]))
+                    elif isinstance(x, ast.AugAssign) and isinstance(x.target, ast.Name) and x.target.id == "TLD_SET":
+                        src, what = x.value, unparse(x)
+                    elif isinstance(x, ast.Assign) and fn is not None and any(isinstance(t, ast.Name) and t.id == "TLD_SET" for t in x.targets):
+                        src, what = x.value, unparse(x)
+                    if src is None:
+                        continue
+                    if fn is None and isinstance(x, ast.Assign):
+                        continue
+                    n += 1
+                    scope = fn if fn is not None else ast.Module(body=body, type_ignores=[])
+                    ctx.ob(rule, "writer/%s/%s" % (fn.name if fn is not None else "<module>", what[:50]), from_iana(mod, scope, src),
+                           "`%s` puts into the TLD table something that does not come from tld_data.TLDS: is_url(tld_aware=True) then accepts hosts whose last label is no TLD (http://example.onion/)" % what,
+                           mod.site(x), witness="http://example.onion/")
+    ctx.require_instances(rule, n, 1, "statements writing TLD_SET")
